@@ -131,6 +131,21 @@ def run_case(i, tier):
     except Exception as e:
         out["viols"].append(_viol("exception", "get_condorcet_winner", i, f"{type(e).__name__}: {e}"))
     finally:
+        pass
+    # the same graph object queried again, in another order, must give the same answers (the tiers are cached on the object)
+    try:
+        again = ([set(t) for t in g.dominating_tiers()], g.has_condorcet_winner())
+        try:
+            w2 = g.get_condorcet_winner()
+        except ValueError:
+            w2 = None
+        again2 = ([set(t) for t in g.dominating_tiers()], g.has_condorcet_winner(), dict(g.pairwise_dict))
+        if again != (tiers, hcw) or again2 != (tiers, hcw, pd) or (w2 is None) != (len(top) != 1):
+            out["viols"].append(_viol("query_changes_graph", "PairwiseComparisonGraph", i,
+                                      f"tiers {tiers} / Condorcet flag {hcw} became {again2[0]} / {again2[1]} after querying the Condorcet winner"))
+    except Exception as e:
+        out["viols"].append(_viol("exception", "PairwiseComparisonGraph", i, f"second round of queries raised {type(e).__name__}: {e}"))
+    finally:
         PCG.dominating_tiers.cache_clear()
     if len(ref_t) > 1 and any(len(t) > 1 for t in ref_t):
         cnt["nontrivial"] += 1
